@@ -115,7 +115,8 @@ def run(rep, tier, seed):
             sess = []
             for (b, c, m, cnt, visual) in sub:
                 for op in (b"d", b"y"):
-                    cs["setups"].append(setup(b, c, "vi-command"))
+                    # both runs start with the same sentinel in the unnamed register ("nothing copied" is then visible)
+                    cs["setups"].append(setup(b, c, "vi-command", kill="\u00a7\u00a7"))
                     sess.append(SETUP_KEY)
                     for k in script(op, m, cnt, visual):
                         sess.append(keys(k))
